@@ -65,6 +65,8 @@ const POSITIONS: &[(&str, &str)] = &[
     ("index_par", "local y = t[(§)]\n"),
     ("tablekey_par", "local t = {[(§)] = 1}\n"),
     ("callarg_par", "f((§))\n"),
+    ("index_cat", "local y = t[§ .. b]\n"),
+    ("tablekey_cat", "local t = {[§ .. b] = 1}\n"),
 ];
 
 pub fn process(case: &Value) -> Vec<Value> {
